@@ -192,7 +192,7 @@ class World(EventDispatcher):
 
         while fringe:
             subtype = fringe.pop()
-            fringe += subtype.__subclasses__()
+            fringe += type.__subclasses__(subtype)
 
             if subtype in self._entities[entity]:
                 return True
@@ -244,7 +244,7 @@ class World(EventDispatcher):
             if subtype in visited:
                 continue
             visited.add(subtype)
-            fringe += subtype.__subclasses__()
+            fringe += type.__subclasses__(subtype)
 
             for entity in self._components.get(subtype, []):
                 yield entity, self._entities[entity][subtype]
@@ -268,7 +268,7 @@ class World(EventDispatcher):
             if subtype in self._entities.get(entity, {}):
                 return self._entities[entity][subtype]
 
-            fringe += subtype.__subclasses__()
+            fringe += type.__subclasses__(subtype)
 
         return default
 
@@ -422,7 +422,7 @@ class World(EventDispatcher):
                     self.remove_handler(removed)
                     return removed
 
-            fringe += subtype.__subclasses__()
+            fringe += type.__subclasses__(subtype)
 
         return removed
 
@@ -517,7 +517,7 @@ class World(EventDispatcher):
                 self.remove_handler(removed)
                 return removed
 
-            fringe += subtype.__subclasses__()
+            fringe += type.__subclasses__(subtype)
 
     def get_processor(self, processor_type: type[P]) -> Optional[P]:
         """Get a processor of the given type from the system.
@@ -532,7 +532,7 @@ class World(EventDispatcher):
             if subtype in self._processors:
                 return self._processors[subtype]
 
-            fringe += subtype.__subclasses__()
+            fringe += type.__subclasses__(subtype)
 
         return None
 
